@@ -51,6 +51,7 @@ inductive Stmt
   | varDecl (x : String) (isBool : Bool) (init : Option Expr)   -- var x T [= e]
   | exprStmt (e : Expr)                                -- f(…) as a statement
   | discard (e : Expr)                                 -- _ = e
+  | panicS (e : Expr)                                  -- panic(e)
   | ite (c : Expr) (thn : Stmt) (k : ElseKind) (els : Stmt)
   | loop (init : Stmt) (cond : Option Expr) (post : Stmt) (body : Stmt)
   | ret (e : Option Expr)
@@ -362,6 +363,9 @@ def exec : Nat → Prog → Env → Stmt → Res SOut
         | r => r
       | .ok _ => .stuck
       | r => r
+    | .panicS e => match evalE fuel p env e with
+      | .ok _ => .panic
+      | .panic => .panic | .overflow => .overflow | .stuck => .stuck | .timeout => .timeout
     | .ret none => .ok (.ret none)
     | .ret (some e) => match evalE fuel p env e with
       | .ok v => .ok (.ret (some v))
